@@ -296,11 +296,20 @@ pub fn run(tier: &str, seed: u64) -> Report {
         cases.push(Case::Key { key, form: rng.below(6) as u8, class: "random".into() });
     }
     // (4) time constructors: the C11 rendering space
-    let instants: [i64; 13] = [946_684_800, 45_964_800, 32_472_144_000, 221_845_392_000, 1_790_000_000, 1_600_000_000, 0, 951_782_400, 1_709_164_800, 4_107_542_399, 253_402_128_000, 86_399, 1_000_000_000];
+    // ... incl. the first and last representable years (0000-01-01, 0000-12-31, 0001-01-01, 9999-12-31T23:59:59) and 1969
+    let instants: [i64; 19] = [
+        946_684_800, 45_964_800, 32_472_144_000, 221_845_392_000, 1_790_000_000, 1_600_000_000, 0, 951_782_400, 1_709_164_800, 4_107_542_399, 253_402_128_000, 86_399, 1_000_000_000,
+        -62_167_219_200, -62_135_683_200, -62_135_596_800, 253_402_300_799, -1, -86_400,
+    ];
     let stride = if thorough { 1 } else { 7 };
     for (ii, &t) in instants.iter().enumerate() {
         for off in (-1439..=1439i32).filter(|o| thorough || (o + 1439 + ii as i32) % stride == 0 || o.abs() >= 1430 || o.abs() <= 2) {
             for frac in 0..=9usize {
+                // the rendering must stay a four-digit-year string
+                let ly = crate::c11::civil_from_days((t + off as i64 * 60).div_euclid(86400)).0;
+                if !(0..=9999).contains(&ly) {
+                    continue;
+                }
                 let nanos = (rng.next() % 1_000_000_000) as u32;
                 let text = render(t, nanos, off, frac, Style::Strict);
                 let ctor = ((off + 1439) as usize + frac + ii) % 3;
@@ -332,6 +341,14 @@ pub fn run(tier: &str, seed: u64) -> Report {
         let n = rng.range(0, 30);
         let s = rng.utf8(n);
         nondates.push(s);
+    }
+    // long refusals whose multi-byte characters straddle every byte offset up to 130 (an error message that quotes or
+    // truncates the value on a byte index must not turn the refusal into a panic)
+    for n in 0..=130usize {
+        nondates.push(format!("{}{}", "x".repeat(n), "\u{e9}\u{20ac}\u{1F980}".repeat(4)));
+        if n % 9 == 0 {
+            nondates.push(format!("am {}. Januar zweitausendneunzehn, f\u{fc}nf nach zw\u{f6}lf {}", n, "\u{65e5}".repeat(n)));
+        }
     }
     // the fixed catalogue goes to all three constructors in both forms; random strings are spread over them
     let fixed = 36.min(nondates.len());
@@ -365,6 +382,9 @@ pub fn run(tier: &str, seed: u64) -> Report {
     let mut r = Report::new();
     for (i, &t) in instants.iter().enumerate() {
         for (j, off) in [-1439, -330, 0, 1, 765, 1439].iter().enumerate() {
+            if !(0..=9999).contains(&crate::c11::civil_from_days((t + *off as i64 * 60).div_euclid(86400)).0) {
+                continue;
+            }
             through_token(&mut r, &render(t, 123_456_789, *off, (i + j) % 10, Style::Strict), ((i + j) % 3) as u8);
         }
         through_token(&mut r, &render(t, 5, 0, 9, Style::StrictZ), (i % 3) as u8);
@@ -387,4 +407,4 @@ pub fn replay(case: &Value) -> Report {
     r
 }
 
-pub const RULE: &str = "CustomClaim::try_from: ALL strings of length 0..=4 over the 13 letters of the reserved keys plus 'E', space and NUL (69 905 keys) x the three constructor forms (&str, (&str,T), (String,T)); ALL strings of length 1..3 (thorough 4) over those 13 letters plus 19 separator / quote characters (, ; | : . space TAB LF / - _ quotes brackets braces: what a joined or packed representation of the reserved list contains); ALL 18 278 lower-case ASCII strings of length 1..3; a dictionary of 75 names from neighbouring specifications (kid, wpk, typ, nonce, scope, email ...) x six forms; ~50 decorated variants (case, whitespace, NUL, zero-width, homoglyphs, reversed, truncated, extended, and three-character look-alikes under narrowing to 7/8/16 bits or under (a<<16|b<<8|c) bit-packing) of each of the seven keys x six forms/value types; 20 000 (thorough 2 000 000) random Unicode keys; oracle: fails with the reserved-key error iff the key is literally one of the seven, otherwise succeeds keeping key and value. Time constructors (ExpirationClaim, NotBeforeClaim, IssuedAtClaim x &str/String): 13 instants x UTC offsets -23:59..+23:59 (every 7th plus the extremes; thorough: all) x 0..9 fractional digits, 'Z' and '-00:00' forms must be accepted and kept verbatim (also read back through a built token); strings outside a deliberately broad recogniser of ISO 8601 date prefixes (optional sign + >= 4 digits) must be refused; lenient renderings and possibly-date strings are recorded without verdict. distinct_nontrivial = distinct (class, form/constructor, key or text shape) tuples";
+pub const RULE: &str = "CustomClaim::try_from: ALL strings of length 0..=4 over the 13 letters of the reserved keys plus 'E', space and NUL (69 905 keys) x the three constructor forms (&str, (&str,T), (String,T)); ALL strings of length 1..3 (thorough 4) over those 13 letters plus 19 separator / quote characters (, ; | : . space TAB LF / - _ quotes brackets braces: what a joined or packed representation of the reserved list contains); ALL 18 278 lower-case ASCII strings of length 1..3; a dictionary of 75 names from neighbouring specifications (kid, wpk, typ, nonce, scope, email ...) x six forms; ~50 decorated variants (case, whitespace, NUL, zero-width, homoglyphs, reversed, truncated, extended, and three-character look-alikes under narrowing to 7/8/16 bits or under (a<<16|b<<8|c) bit-packing) of each of the seven keys x six forms/value types; 20 000 (thorough 2 000 000) random Unicode keys; oracle: fails with the reserved-key error iff the key is literally one of the seven, otherwise succeeds keeping key and value. Time constructors (ExpirationClaim, NotBeforeClaim, IssuedAtClaim x &str/String): 19 instants (incl. 0000-01-01, 0001-01-01, 1969, 9999-12-31T23:59:59) x UTC offsets -23:59..+23:59 (every 7th plus the extremes; thorough: all) x 0..9 fractional digits, 'Z' and '-00:00' forms must be accepted and kept verbatim (also read back through a built token); strings outside a deliberately broad recogniser of ISO 8601 date prefixes (optional sign + >= 4 digits) must be refused — incl. long ones whose multi-byte characters straddle every byte offset up to 130, and a panic is not a refusal; lenient renderings and possibly-date strings are recorded without verdict. distinct_nontrivial = distinct (class, form/constructor, key or text shape) tuples";
